@@ -78,9 +78,18 @@ pub fn run() -> Report {
         }
     }
     rep.rule = "every accepted (tip T, --start, --end) combination x 5 callbacks on dense chains (file-producing callbacks also with the leftovers of an aborted whole-chain dump in the dump folder), a long chain (300 / 1000 blocks) with ranges around height 256, plus range shapes on sparse indexes at VarInt-width / halving / >32-bit heights; non-trivial = distinct (T, options, callback) whose run delivered at least one block".into();
-    rep.bound = json!({"max_tip": max_t, "callbacks": 5, "cases": cases.len(), "long_chain_blocks": long_n, "very_long_chain_blocks": 70000});
+    rep.bound = json!({"max_tip": max_t, "callbacks": 5, "cases": cases.len(), "long_chain_blocks": long_n, "very_long_chain_blocks": 70000, "index_records_headers_only": 1000000});
     let root = refmodel::world::scratch_root();
     let btc = coin("bitcoin");
+    // an index of today's mainnet length (more than 900 000 linked records; runs beside the sweep, it is mostly single-threaded)
+    let long_index = {
+        let root = root.clone();
+        std::thread::spawn(move || {
+            let mut r = Report::new("C02", "e1");
+            crate::c04::long_index_case(&mut r, &root, 1_000_000, "csvdump");
+            r
+        })
+    };
     let parts = par_fold(
         &cases,
         || Report::new("C02", "e1"),
@@ -194,6 +203,10 @@ pub fn run() -> Report {
     }
     // slice law (differential): csvdump/opreturn of a range equals the slice of the whole-chain output
     slice_law(&mut rep, &root, max_t.min(4));
+    match long_index.join() {
+        Ok(r) => rep.merge(r),
+        Err(_) => rep.machinery("long-index case panicked".into()),
+    }
     let _ = std::fs::remove_dir_all(&root);
     rep
 }
